@@ -36,7 +36,8 @@ MODULES = {
     "C19": "props_c19",
     "BLINES": "props_blines",
     "SETINDENT": "props_setindent",  # model of set_token_indent / read_indent_configuration (development aid for C05 / C08)
-    "BMULTI": "props_bmulti",  # layer-B multi-line structure family correspondence (development aid)
+    "BMULTI": "props_bmulti",
+    "PROG": "props_prog",  # >>> WP1 layer P: translated classifier productions vs the real ones (development aid) <<<  # layer-B multi-line structure family correspondence (development aid)
 }
 
 
